@@ -502,7 +502,7 @@ int main()
             // until the poller thread is inside the gated invocation (bounded wait, no timing claim)
             auto l = leafOf(*vp::parseNat(t[1]));
             std::unique_lock<std::mutex> g(l->m);
-            bool ok = l->cv.wait_for(g, std::chrono::seconds(20), [&] { return l->inside; });
+            bool ok = l->cv.wait_for(g, std::chrono::seconds(10), [&] { return l->inside; });
             g.unlock();
             threadsAtAwait = countThreads();
             std::cout << (ok ? "ok" : "timeout") << "\n";
@@ -514,7 +514,7 @@ int main()
             std::unique_lock<std::mutex> g(l->m);
             l->open = true;
             l->cv.notify_all();
-            bool ok = !l->inside || l->cv.wait_for(g, std::chrono::seconds(20), [&] { return l->returned; });
+            bool ok = !l->inside || l->cv.wait_for(g, std::chrono::seconds(10), [&] { return l->returned; });
             std::cout << (ok ? "ok" : "timeout") << "\n";
         }
         else if (op == "settle" && t.size() == 1)
@@ -523,7 +523,7 @@ int main()
             // (it stores its result, sees terminate_ and returns): observed as the thread count dropping
             bool ok = false;
             auto t0 = std::chrono::steady_clock::now();
-            while (std::chrono::steady_clock::now() - t0 < std::chrono::seconds(20))
+            while (std::chrono::steady_clock::now() - t0 < std::chrono::seconds(10))
             {
                 if (threadsAtAwait > 0 && countThreads() < threadsAtAwait) { ok = true; break; }
                 std::this_thread::sleep_for(std::chrono::microseconds(200));
